@@ -11,6 +11,7 @@ import numpy as np
 import pandas as pd
 
 from harness import common as C
+from harness import extract as X
 
 PROP = "C17"
 MODULES = ["ElexModel.Props.C17"]
@@ -268,6 +269,10 @@ CORPUS = [
         {"results_dem": 50, "results_gop": 40, "results_turnout": 90, "percent_expected_vote": 95.0},
         {"results_dem": 55, "results_gop": 45, "results_turnout": 100, "percent_expected_vote": 80.0}]}], "dtype": "float"},
 ]
+
+
+def extract(run):
+    return X.generate("C17")
 
 
 def explore(run, driver, budget):
